@@ -146,6 +146,9 @@ class Builder:
     def b_Tern(self, e, env):
         return getattr(pt, e[1])(self.b(e[2], env), self.b(e[3], env), self.b(e[4], env))
 
+    def b_WideRatio(self, e, env):
+        return pt.WideRatio([self.b(c, env) for c in e[1]], [self.b(c, env) for c in e[2]])
+
     def b_Suffix(self, e, env):
         return pt.Suffix(self.b(e[1], env), self.b(e[2], env))
 
